@@ -132,7 +132,8 @@ pub fn run(ctx: &Ctx, rep: &mut Report) {
         jobs.push(Job { seed: si, kind: "entry", entry: Entry::Derive, attr: String::new(), item: format!("#[derive_ex({})] {}", s.attr, s.item), traits: s.traits.clone(), map: id.clone() });
         // (a') `#[derive(Ex)]` next to the list written with the crate path: that list is an attribute-macro invocation
         //      (rustc expands it after the derive), not a helper attribute of the derive - the impls must exist ONCE
-        for path in ["derive_ex::derive_ex", "::derive_ex::derive_ex"] {
+        // (not for seeds with invisible groups: this relation re-serializes the item as text)
+        for path in ["derive_ex::derive_ex", "::derive_ex::derive_ex"].iter().filter(|_| !s.item.contains("__FRAG")) {
             jobs.push(Job { seed: si, kind: "derive-next-to-qualified-list", entry: Entry::Derive, attr: String::new(), item: format!("#[{path}({})] {}", s.attr, s.item), traits: s.traits.clone(), map: id.clone() });
         }
         // (b) splits: BFS over cut sets
@@ -404,7 +405,7 @@ pub fn run(ctx: &Ctx, rep: &mut Report) {
         }
     }
     if ctx.replay.is_none() {
-        let inputs: Vec<crate::conform::Input> = seeds.iter().take(base_n).filter(|s| !s.attr.contains("dump")).flat_map(|s| Entry::BOTH.iter().map(move |&e| crate::conform::Input { entry: e, attr: s.attr.clone(), item: s.item.clone() })).collect();
+        let inputs: Vec<crate::conform::Input> = seeds.iter().take(base_n).filter(|s| !s.attr.contains("dump") && !s.item.contains("__FRAG")).flat_map(|s| Entry::BOTH.iter().map(move |&e| crate::conform::Input { entry: e, attr: s.attr.clone(), item: s.item.clone() })).collect();
         crate::conform::validate_or_die(rep, "c15p", &inputs);
     }
     rep.set("seeds", json!(seeds.len()));
